@@ -31,6 +31,7 @@ func checkC10(c *Ctx, r *Report) {
 	}
 	c10Field(c, r, a)
 	c10Static(c, r, a)
+	c10DirReq(c, r)
 	c10Kinds(c, r, a)
 	c10Arg(c, r, a)
 	c10Req(c, r, a, "C10.REQ")
@@ -652,4 +653,22 @@ func c10Static(c *Ctx, r *Report, a *Anchors) {
 		r.check("C10.STATIC", fmt.Sprintf("%s: re-typing site #%d keeps the existence check against the declared interface", fnName(fn), i+1), ci.Pos(), checked,
 			"selections under an interface-typed field are looked up in the concrete object type only: a field the interface does not define is resolved, and its resolver invoked, instead of being rejected")
 	}
+}
+
+// c10DirReq: the validator of a directive use walks the arguments the use holds. A required argument that
+// was left out is only seen because the reader completes every use with an entry (value nil, or the
+// default) for each declared argument the use does not mention. The completion must therefore not depend
+// on the argument having a default.
+func c10DirReq(c *Ctx, r *Report) {
+	r.rule("C10.DIRREQ", "the reader's completion of a directive use with the declared arguments it does not mention is not conditioned on Arg.Default being set: an omitted required argument reaches the validator as a nil entry")
+	n := 0
+	dirUseCompletionHook = func(fn *ssa.Function, mu *ssa.MapUpdate, ord int, condOnDefault bool) {
+		n++
+		r.check("C10.DIRREQ", fmt.Sprintf("%s: completion #%d covers arguments without a default", fnName(fn), ord), mu.Pos(), !condOnDefault,
+			"only arguments that have a default are completed: `@skip` without `if`, or a user directive with an omitted `T!` argument, passes validation and the selection is resolved")
+	}
+	defer func() { dirUseCompletionHook = nil }()
+	sub := newReport("C10", r.Tier, c)
+	c16DefaultsBody(c, sub)
+	r.floor("C10.DIRREQ", "directive-use completions in the reader", n, 1)
 }
